@@ -74,7 +74,9 @@ def run(tier):
                     "-batches", str(3 if tier == "quick" else 5), "-lines", str([118750, 100001, 106251, 225000][i % 4])]
 
             def record(path, args=args):
-                p = vf.run([bins["rec-sched"]] + args + ["-out", path], timeout=1200, check=False)
+                # the recorder's data file lives under the scratch directory (the server may exit the process)
+                env = dict(os.environ, TMPDIR=work)
+                p = vf.run([bins["rec-sched"]] + args + ["-out", path], timeout=1200, check=False, env=env)
                 # the server exits the process when the cancellation reaches it while it reads the file between epochs;
                 # the trace up to the cancellation was written before
                 if p.returncode != 0 and not ("context canceled" in p.stderr and os.path.exists(path) and os.path.getsize(path) > 0):
